@@ -3,4 +3,4 @@ import broker
 
 
 def run(res, tier, seed, replay):
-    return broker.run_property(res, "C10", tier, seed, replay, ["C10", "C10sys"])
+    return broker.run_property(res, "C10", tier, seed, replay, ["C10", "C10sys", "C10float"])
